@@ -33,6 +33,10 @@ import numpy as np  # noqa: E402
 
 np.seterr(all="ignore")
 
+import dask  # noqa: E402
+
+dask.config.set(scheduler="synchronous")
+
 import hypothesis  # noqa: E402
 from hypothesis import HealthCheck, Phase, given, settings  # noqa: E402
 from hypothesis import strategies as st  # noqa: E402
@@ -105,7 +109,7 @@ def load_known_findings():
     out = {}
     for e in doc.get("findings", []):
         if e.get("status", "open") == "open":
-            out[e["id"]] = e
+            out.setdefault(e["id"], {})[e["property"]] = e
     return out
 
 
@@ -176,8 +180,8 @@ class Ctx:
     # -- known findings -----------------------------------------------------
     def known_finding(self, kf_id, what=None):
         """True (and counted) when kf_id is listed as an open finding."""
-        e = self.known.get(kf_id)
-        if e is None or e.get("property") != self.prop_id:
+        e = self.known.get(kf_id, {}).get(self.prop_id)
+        if e is None:
             return False
         self.known_hits[kf_id] = self.known_hits.get(kf_id, 0) + 1
         return True
@@ -494,7 +498,7 @@ def main(argv=None):
             print("HARNESS-ERROR property=%s replay failed" % prop_id)
             return 2
         for kf in ctx.known_hits:
-            print("KNOWN-FINDING: property=%s %s" % (prop_id, ctx.known[kf]["text"]))
+            print("KNOWN-FINDING: property=%s %s" % (prop_id, ctx.known[kf][prop_id]["text"]))
         if v is not None:
             print("  %s [%s]" % (v.msg, v.klass))
             print("VIOLATION property=%s replay=%s" % (prop_id, args.replay))
@@ -615,7 +619,7 @@ def main(argv=None):
     known = load_known_findings()
     for kf in sorted(known_hits):
         print("KNOWN-FINDING: property=%s %s (matched %d generated cases)"
-              % (prop_id, known[kf]["text"], known_hits[kf]))
+              % (prop_id, known[kf][prop_id]["text"], known_hits[kf]))
     for obn, msg, klass, path in uniq:
         print("  [%s] %s" % (obn, msg))
         print("VIOLATION property=%s replay=%s" % (prop_id, path))
